@@ -8,6 +8,8 @@ from qvc.sym import Unsupported
 from qvc.tm_tensor import is_wrapper
 from qvc.values import STensor
 
+# ops whose float result is a NEW tensor (no storage shared with the operands): writing into the result must not change an operand
+FRESH_OPS = {"neg", "relu", "mul", "div", "cat", "stack", "clone", "add", "abs", "sub", "_softmax", "where"}
 DOCUMENTED_REFUSALS = {("where-quantized-condition", "NotImplementedError"), ("qbits-dtype-change", "ValueError")}
 
 
@@ -50,8 +52,18 @@ def handler(run):
             OC.compare(run, E, r, "C05/positive-scales", tag, inst, res[1], ref[1], cs["rel"], rp, hyps_extra=pf, dq=h.res_deq)
         else:
             OC.compare(run, E, r, "C05", tag, inst, res[1], ref[1], cs["rel"], rp, dq=h.res_deq)
-        # the ops that work on the codes (relu, lt) need positive scales: "all scales are positive" must be preserved by every op
         outs = res[1] if isinstance(res[1], (list, tuple)) else [res[1]]
+        if cs["op"] in FRESH_OPS:
+            # frame: the result of an op that returns a new tensor in the float program shares no storage with the operands
+            # (copy_ writes the codes and the scale of its destination in place: sharing either lets `op(q).copy_(p)` change q)
+            for k, o in enumerate(outs):
+                if not is_wrapper(o):
+                    continue
+                shared = sorted({f"result.{fo} is operand.{fi}" for fo in ("_data", "_scale") for qi in h.quantized for fi in ("_data", "_scale")
+                                 if isinstance(o.fields.get(fo), STensor) and isinstance(qi.fields.get(fi), STensor) and o.fields[fo].root() is qi.fields[fi].root()})
+                run.add(f"C05/fresh-result-owns-its-storage[{tag}]/out{k}", r.hyps, z3.BoolVal(not shared), "property", inst, {"shared": shared},
+                        replay=lambda m, sd, c=cs["name"], i=dict(inst): replay_alias(m, sd, c, i))
+        # the ops that work on the codes (relu, lt) need positive scales: "all scales are positive" must be preserved by every op
         pf = scale_positive_facts(E, h)
         cpos = z3.Real("c") > 0
         for k, o in enumerate(outs):
@@ -325,7 +337,7 @@ def build(run):
                 f"{OC.QBITS}::QBitsTensor.__torch_dispatch__", f"{OC.QBOPS}::_to_copy", f"{OC.QBOPS}::detach"):
         run.under_contract(E0, key)
     lib.lean_lemmas(run, ["inv_reach"])
-    for part in (fallback_contract, requant_ops, lambda r: OC.explore_cases(r, handler(r), "C05", r.tier)):
+    for part in (fallback_contract, requant_ops, view_write_programs, lambda r: OC.explore_cases(r, handler(r), "C05", r.tier)):
         try:
             part(run)
         except Unsupported as u:
@@ -395,11 +407,141 @@ def replay(model, seed, case, inst):
     return None
 
 
+def view_write_programs(run):
+    """Depth-2 programs that write through a view: v = q[0:1]; v.copy_(p).  In the float program rows 1.. of q keep their values and
+    row 0 takes p's; the quantized program must agree after dequantization."""
+    from qvc.tm_tensor import call_aten
+    from qvc.values import AtenOp, Builtin
+    from qvc.interp import RaiseEx
+
+    for qname in ("qint8", "qfloat8_e4m3fn"):
+        for axis in (None,):   # (views of per-axis tensors are dequantized copies; copy_ into them is the known copy_-into-plain finding)
+            for same_scale in (True, False):
+                inst = {"op": "slice;copy_", "case": "copy_-into-slice", "qtype": qname, "axis": axis, "same_scale": same_scale}
+                run.count_instance(op="slice;copy_", qtype=qname, axis=axis, case=f"copy_-into-slice/{same_scale}")
+                E = OC.engine(run)
+                d0, d1 = z3.Ints("d0 d1")
+
+                def prog(E2, qname=qname, axis=axis, same_scale=same_scale):
+                    E2.assume(d0 >= 2)
+                    E2.assume(d1 >= 1)
+                    h = OC.H(E2, qname, axis)
+                    x = h.q([d0, d1], name="X")
+                    xd = OC.deq(E2, x)
+                    try:
+                        v = call_aten(E2, AtenOp("slice"), [x, 0, 0, 1], {})
+                        if same_scale:
+                            p = h.q([1, d1], name="P", scale=v.fields["_scale"])
+                        else:
+                            p = h.q([1, d1], name="P")
+                        pd = OC.deq(E2, p)
+                        call_aten(E2, AtenOp("copy_"), [v, p], {})
+                        xd2 = OC.deq(E2, x)
+                    except RaiseEx as e:
+                        return ("raises", e.exc)
+                    return ("value", xd, pd, xd2)
+
+                tag = f"{qname}/axis{axis}/{'same' if same_scale else 'other'}-scale"
+                try:
+                    rs = E.explore(Builtin("viewwrite", prog), lambda E2: ([], {}), name="C05.viewwrite")
+                except Unsupported as u:
+                    run.undecide(f"C05/view-write[{tag}]", u, inst)
+                    continue
+                run.absorb(E)
+                if not run.expect_paths(rs, f"C05/view-write[{tag}]", inst):
+                    continue
+                rp = lambda m, sd, i=dict(inst): replay_view_write(m, sd, i)
+                for pi, r in enumerate(rs):
+                    if r.outcome != "return":
+                        run.add(f"C05/view-write/case-harness[{tag}]/path{pi}", r.hyps, z3.BoolVal(False), "side", inst, {"outcome": repr(r.value)[:200]})
+                        continue
+                    E.focus(r)
+                    if r.value[0] == "raises":
+                        run.add(f"C05/view-write/does-not-raise[{tag}]/path{pi}:{r.value[1].tname}", r.hyps, z3.BoolVal(False), "property", inst, replay=rp)
+                        continue
+                    _, xd, pd, xd2 = r.value
+                    i, j = z3.Ints("i j")
+                    E.drain()
+                    a, b, c = xd.elem([i, j]), pd.elem([0, j]), xd2.elem([i, j])
+                    facts = E.drain() + list(E.ps.get("lazy_facts", []))
+                    hy = r.hyps + [i >= 0, i < d0, j >= 0, j < d1] + facts
+                    kind = "same-scale" if same_scale else "other-scale"
+                    run.add(f"C05/view-write/{kind}/written-row-takes-the-source[{tag}]/path{pi}", hy + [i == 0], c == b, "property", inst, replay=rp, timeout=30)
+                    run.add(f"C05/view-write/{kind}/other-rows-keep-their-values[{tag}]/path{pi}", hy + [i > 0], c == a, "property", inst, replay=rp, timeout=30)
+
+
+def replay_view_write(model, seed, inst):
+    import torch
+    from optimum.quanto import qtypes
+
+    torch.manual_seed(seed)
+    Q = native_cases()
+    qt, axis = qtypes[inst["qtype"]], inst["axis"]
+    x = torch.randn(3, 4)
+    qx = Q(x, qt, axis)
+    before = qx.dequantize().clone()
+    v = qx[0:1]
+    p = Q(torch.randn(1, 4) * (1 if inst["same_scale"] else 10), qt, axis)
+    if inst["same_scale"]:
+        p._scale = v._scale
+    try:
+        v.copy_(p)
+    except Exception as e:
+        return {"what": f"raises {type(e).__name__}: {str(e)[:150]}", "qtype": inst["qtype"], "axis": axis}
+    after = qx.dequantize()
+    want = before.clone()
+    want[0:1].copy_(p.dequantize())
+    if not torch.allclose(after, want, atol=1e-6):
+        return {"what": "q[0:1].copy_(p) does not act like the float program: rows other than the written one changed" if not torch.allclose(after[1:], want[1:], atol=1e-6)
+                else "the written row differs from the source", "max_abs_diff": (after - want).abs().max().item(), "qtype": inst["qtype"], "axis": axis}
+    return None
+
+
+def replay_alias(model, seed, case, inst):
+    """r = op(q); r.copy_(p) must leave q unchanged (as it does for float tensors)."""
+    import torch
+    from optimum.quanto import qtypes
+
+    torch.manual_seed(seed)
+    Q = native_cases()
+    qt, axis = qtypes[inst["qtype"]], inst["axis"]
+    x = torch.randn(3, 4)
+    qa = Q(x, qt, axis)
+    qsame = Q(x.flip(0), qt, axis)
+    qsame._scale = qa._scale
+    progs = {"neg": lambda: -qa, "relu": lambda: torch.relu(qa), "mul-scalar-q": lambda: 3.0 * qa, "mul-q-symbolic-scalar": lambda: qa * 0.5, "div-scalar": lambda: qa / 2.0,
+             "div-symbolic-scalar": lambda: qa / 0.7, "mul-q-0dim-tensor": lambda: qa * torch.tensor(0.5), "mul-q-1elem-tensor": lambda: qa * torch.full((1, 1, 1), 0.5),
+             "cat-same-scale": lambda: torch.cat([qa, qsame]), "stack-same-scale": lambda: torch.stack([qa, qsame]), "clone": lambda: qa.clone()}
+    f = progs.get(case)
+    if f is None:
+        return None
+    before = qa.dequantize().clone()
+    try:
+        r = f()
+        if not hasattr(r, "dequantize"):
+            return None
+        other = Q(torch.randn(*r.shape) * 10, qt, axis if r.ndim == 2 else None)
+        if tuple(other._scale.shape) != tuple(r._scale.shape):
+            other = Q(torch.randn(*r.shape) * 10, qt, None)
+        r.copy_(other)
+    except Exception as e:
+        return None
+    after = qa.dequantize()
+    if not torch.equal(before, after):
+        return {"case": case, "qtype": inst["qtype"], "axis": axis, "what": "writing into the result of the op (r = op(q); r.copy_(p)) changed the operand q",
+                "max_abs_change_of_q": (before - after).abs().max().item()}
+    return None
+
+
 def replay_file(path):
     import json
     rec = json.load(open(path))
     inst = rec["instance"]
-    if str(inst.get("case", "")).startswith(("_softmax", "where-")):
+    if inst.get("case") == "copy_-into-slice":
+        r = replay_view_write(rec.get("model") or {}, rec.get("seed", 0), inst)
+    elif "fresh-result-owns-its-storage" in rec.get("obligation", ""):
+        r = replay_alias(rec.get("model") or {}, rec.get("seed", 0), inst.get("case"), inst)
+    elif str(inst.get("case", "")).startswith(("_softmax", "where-")):
         r = replay_requant(rec.get("model") or {}, rec.get("seed", 0), inst)
     else:
         r = replay(rec.get("model") or {}, rec.get("seed", 0), inst.get("case"), inst)
